@@ -110,6 +110,7 @@ func C02(p *load.Prog, r *report.Report) {
 		r.Undecided("C02.model", "coordinate roles", "", err.Error())
 		return
 	}
+	m.stateGuard(r, "C02", true, false)
 	cases := []c02case{
 		{"Add(P,Q)", "Add", false, false, func(a, b pt) pt { return rcbAdd(a, b) }},
 		{"Add(P,P) argument is the receiver", "Add", true, false, func(a, b pt) pt { return rcbAdd(a, a) }},
